@@ -298,7 +298,8 @@ def check_skip(run, rule_exh="R07.1", rule_tag="R07.3"):
         if mj == "SIMPLE":
             return None if ai == 31 else [[("read_int",)]]
         if mj in ("BYTE_STRING", "TEXT_STRING"):
-            return [[("read_int",), ("read_string", ai == 31)]]
+            # (read_int(31) takes no byte from the input: for an indefinite-length string it may be called or not)
+            return [[("read_int",), ("read_string", ai == 31)]] + ([[("read_string", True)]] if ai == 31 else [])
         if mj == "ARRAY":
             return [[("push", 0, True)]] if ai == 31 else [[("read_int",), ("push", "N", False)]]
         if mj == "MAP":
